@@ -20,9 +20,9 @@ ASSUMPTIONS = ["plain {name} fields only: attribute/index fields, format functio
                "no positional-only parameters; sets excluded (iteration order); extra *args/**kwargs values are atoms"]
 EXHAUSTIVE = {"quick": False, "thorough": False}
 
-VALS = ["a", "", "b:c", 0, 1, True, None, b"x", ("a", "b"), {"k": 1}, "z", 7, False]
+VALS = ["a", "", "b:c", 0, 1, True, None, b"x", ("a", "b"), {"k": 1}, "z", 7, False, {"k": 1, "j": 2}, {"j": 2, "k": 1}]      # the last two: one dict, two insertion orders
 ATOMS = ["a", "", "b:c", 0, 1, True, None, b"x", "q"]
-SEPARABLE = [("a", "z"), (0, 1), (1, 7), (True, False), ("q", "a")]
+SEPARABLE = [("a", "z"), (0, 1), (1, 7), (True, False), ("q", "a"), (b"x", b"y"), (("a", "b"), ("a", "c")), ({"k": 1}, {"k": 2}), (("a", "b"), ("a",))]
 NAMES = ["a", "b", "c", "d"]
 
 
@@ -246,7 +246,11 @@ def run_impl(case):
             if gname == "g2":  # calls that omit defaulted parameters first: they must not see values left by earlier keyword calls
                 fs = sorted(fs, key=lambda f: (len(f[1]), len(f[0])))
             ref = None
-            for args, kwargs in fs[:12]:
+            if len(fs) > 12:      # a spread over the enumeration: mostly-keyword forms come first, fully positional ones last
+                fs = fs[:6] + fs[-6:]
+            for n_form, (args, kwargs) in enumerate(fs):
+                if n_form % 2:      # the same call with its keywords given in the opposite order
+                    kwargs = dict(reversed(list(kwargs.items())))
                 try:
                     ba = sig.bind(*(([inst] if method else []) + list(args)), **kwargs); ba.apply_defaults()
                 except TypeError:
